@@ -398,15 +398,16 @@ ExactlyOneDriver(D, M, ww) ==
               w[1], b, {dn[i][1] : i \in {i \in DOMAIN dn : dn[i][3] <= b /\ b <= dn[i][4]}}>>
     ELSE OK
 
-(* only the top module may be without content: a module with no cell, process or connection reads as a *)
-(* black box in downstream tools, so it is neither written out nor instantiated                    *)
-NoEmptyModules(M) ==
-    IF ~IsTop(M) /\ M.cells = <<>> /\ M.procs = <<>> /\ M.conns = <<>> THEN <<"empty_module">> ELSE OK
+(* A module with no cell, no process and no connection of non-zero width.  The property only demands that   *)
+(* empty submodules never break well-formedness, not that they are left out, so this is NOT part of the      *)
+(* verdict (ModuleWitness); it is kept as a named observation.                                               *)
+NoEmptyModules(M, ww) ==
+    IF ~IsTop(M) /\ M.cells = <<>> /\ M.procs = <<>> /\ (\A i \in DOMAIN M.conns : SW(ww, M.conns[i][1]) = 0)
+    THEN <<"empty_module">> ELSE OK
 
 (* first failing clause of a module (later clauses rely on earlier ones: evaluated lazily), or OK *)
 ModuleWitness(D, M) ==
     LET c1 == UniqueNames(M) IN IF c1 # OK THEN <<"UniqueNames", c1>> ELSE
-    LET c9 == NoEmptyModules(M) IN IF c9 # OK THEN <<"NoEmptyModules", c9>> ELSE
     LET c2 == RefsExist(D, M) IN IF c2 # OK THEN <<"RefsExist", c2>> ELSE
     LET ww == WidthFn(M) IN
     LET c3 == SlicesInBounds(M, ww) IN IF c3 # OK THEN <<"SlicesInBounds", c3>> ELSE
